@@ -179,3 +179,10 @@ def r4(c):
         cs = one(ff.calls('rodbus::retry::doubling_retry_strategy'), 'doubling_retry_strategy in the FFI conversion')
         a0, a1 = q.sem(ff, cs.args[0]), q.sem(ff, cs.args[1])
         c.ob('ffi/min-max-order', a0.kind == 'call' and a0.cs.callee.endswith('::min_delay') and a1.kind == 'call' and a1.cs.callee.endswith('::max_delay'), 'the C ABI passes (min_delay, max_delay) in that order', '%r %r' % (a0, a1), cs.loc())
+
+
+@rule('C14', 'R14.5', 'every way of losing an established connection (I/O error, bad frame, max timeouts) goes through the after-disconnect wait (C12/R12.5, C13/R13.3)')
+def r5(c):
+    from rules import c12, c13
+    c12.r5(c)
+    c13.r3(c)
